@@ -50,3 +50,12 @@ claim("C10",
       "checked against n - declared shift.",
       "Trusted: CPython, z3 (two versions), CrossHair; (a) treats compositions' contract as proved by (b); stub classes/strategies.",
       "direct z3 validity queries on the real arithmetic + CrossHair symbolic execution", "DESIGN.md 2/C10")
+claim("C08",
+      "Bounded symbolic execution of the real samplers with the random source as a solver variable: for DisjointUnion the counts "
+      "are unbounded integers and z3 proves on every path that the child descended into is the one whose prefix-sum bracket contains "
+      "the draw (=> probability c_i/total), with the skip rules and parameter mapping checked; for CartesianProduct the library's "
+      "enumeration of size/statistic splits is compared with an independent one and the bracket property is proved for symbolic "
+      "counts; the final choice among preimages is checked for every draw.",
+      "Trusted: CPython, CrossHair, z3; sub-counters return true counts; uniformity of a whole specification is the composition of "
+      "the per-rule results (argued in DESIGN.md) and is additionally exercised end-to-end under C01's group.",
+      "CrossHair symbolic execution (pattern T: symbolic counts and draws, unbounded for unions) + z3", "DESIGN.md 2/C08")
